@@ -670,6 +670,12 @@ func (r *runner) record(j job, res *sym.PathResult) []sym.WorkItem {
 	h.mu.Lock()
 	defer h.mu.Unlock()
 	h.paths++
+	if pl := os.Getenv("GOSYM_PATHLOG"); pl != "" {
+		if f, err := os.OpenFile(pl, os.O_APPEND|os.O_CREATE|os.O_WRONLY, 0o644); err == nil {
+			fmt.Fprintf(f, "%s %s %v\n", j.inst.key, res.Outcome, res.Path)
+			f.Close()
+		}
+	}
 	if res.SymDecs > 0 {
 		h.symPaths++
 	}
